@@ -508,6 +508,7 @@ func (h *HttpServer) InitPages() {
 }
 
 func (h *HttpServer) initPages() {
+	verifAt("http.initPages", h)
 	name := h.protocolName
 	if name == "" {
 		name = h.server.serviceName
